@@ -144,6 +144,28 @@ def constructed(rng):
     yield E.PowerExpression(C(10), C(400))
 
 
+def colossal_powers(rec):
+    """exact integer powers of millions of bits (powers of two are cheap to produce and to check):
+    'of any magnitude' has no threshold"""
+    from mathy_core import expressions as E
+
+    f = getattr(E.BinaryExpression.evaluate, "__vmon_original__", E.BinaryExpression.evaluate)
+    for n in (2 ** 20 + 1, 2 ** 22 + 3, 2 ** 23 + 1, 2 ** 24 + 1, 20000000, 2 ** 25 + 1):
+        for text, ctx, want in ((f"2^{n}", {}, 1 << n), ("(x^y + 7) - x^y", {"x": 2, "y": n}, 7), (f"4^{n // 2} - 2^{n - (n % 2)}", {}, 0)):
+            try:
+                root = D.parse(text)
+                got = f(root, dict(ctx))
+            except Exception as e:
+                got = e
+            rec.ev()
+            rec.arm("eval:int:colossal-power")
+            if not (isinstance(got, int) and not isinstance(got, bool) and got == want):
+                shown = f"raised {type(got).__name__}" if isinstance(got, Exception) else (f"{type(got).__name__} of {got.bit_length()} bits" if isinstance(got, int) else ME._r(got)[:40])
+                rec.violation("C05", "eval/int/wrong-value", "integer arithmetic did not return the exact result",
+                              {"text": text, "context": {k: repr(v) for k, v in ctx.items()}, "colossal": True,
+                               "summary": f"evaluate('{text}', {ctx}) returned {shown}; the exact result is an integer of {want.bit_length()} bits"})
+
+
 def run(rec, cfg):
     rec.accept = {"eval", "eval-missing", "eval-eq-false", "eval-div0"}
     ME.attach_evaluate("C05")
@@ -164,6 +186,8 @@ def run(rec, cfg):
             evaluate(rec, t, {"x": None, "y": 1})
     from . import _rulecommon as RC
 
+    if cfg.shard == 2 % cfg.nshards:
+        colossal_powers(rec)
     if cfg.shard == 1 % cfg.nshards:
         for t in RC.long_texts():
             try:
@@ -184,6 +208,8 @@ def run(rec, cfg):
              "(sgn(x - x) + 3)^50", "sgn(y - y) * 2^70 + 2^70", "(sgn(0) + 2)^64 * 3", "(0 * x + 3)^41", "(x - x + 7)^30 * 10^20", "sgn(2 - 2) + 2^64",
              # the same large power with float and with int operands, in both orders
              "7.0^900", "7^900", "7.0^900 - 7.0^900", "7^900 - 7^900", "0.5 * 7.0^900", "3.0^2000", "3^2000", "3.0^2000 + 1",
+             # divisors that are exactly zero but reach the division as numpy floats (through a power)
+             "1 / 0.0^2", "3 / 0^0.5", "5 / (2^-1 - 0.5)", "-4 / (y^0.5 - y^0.5)", "x / 0^1.5", "7 / (0.5^2 - 0.25)", "2 / (4^-1 - 0.25) + 1",
              # a division by zero (NaN) on one side of an equation
              "3 = x / (y - y)", "x / (y - y) = 3", "7 + z = 12 / (z - z)", "1 / 0 = 1 / 0", "x = 4 / 0", "(x + 1) / (x - x) = y"]
     for i in range(n):
